@@ -22,30 +22,38 @@ inductive GoVal where
   | iface (v : Option GoVal)
   deriving Inhabited
 
-partial def convertGo (g : GoVal) (h : Heap) : Heap × Val :=
+/-- `convert` on a Go value; recursion on the fuel (total). The fuel bounds the nesting depth converted; below it the value is Nil. -/
+def convertGoF : Nat → GoVal → Heap → Heap × Val
+  | 0, _, h => (h, .nil)
+  | fuel + 1, g, h =>
   match g with
   | .nil => (h, .nil)
   | .str s => (h, .S s)
   | .num q => (h, .N q)
   | .bool b => (h, .B b)
   | .ptr none | .iface none => (h, .nil)
-  | .ptr (some v) | .iface (some v) => convertGo v h
+  | .ptr (some v) | .iface (some v) => convertGoF fuel v h
   | .slice items =>
     let (h, vs) := items.foldl (fun (acc : Heap × List Val) x =>
-      let (h', v) := convertGo x acc.1
+      let (h', v) := convertGoF fuel x acc.1
       (h', acc.2 ++ [v])) (h, [])
     h.allocArr vs
   | .map entries =>
     let (h, items) := entries.foldl (fun (acc : Heap × List (String × Val)) (kv : String × GoVal) =>
-      let (h', v) := convertGo kv.2 acc.1
+      let (h', v) := convertGoF fuel kv.2 acc.1
       (h', acc.2 ++ [(kv.1, v)])) (h, [])
     h.allocMap { items := items, order := [] }
   | .struct fields methods =>
     let exported := fields.filter (·.2.1)
     let (h, items) := (exported.map (fun f => (lowerFirst f.1, f.2.2)) ++ methods.map (fun m => (lowerFirst m.1, m.2))).foldl
       (fun (acc : Heap × List (String × Val)) (kv : String × GoVal) =>
-        let (h', v) := convertGo kv.2 acc.1
+        let (h', v) := convertGoF fuel kv.2 acc.1
         (h', assocSet acc.2 kv.1 v)) (h, [])
     h.allocMap { items := items, order := [] }
+
+/-- nesting depth the model converts (far above any data the harness builds) -/
+def goFuel : Nat := 100000
+
+def convertGo (g : GoVal) (h : Heap) : Heap × Val := convertGoF goFuel g h
 
 end Pug.Data
